@@ -16,6 +16,7 @@ import RbModel.Lemmas.GsubMultiDel
 import RbModel.Lemmas.GsubMultiMixed
 import RbModel.Lemmas.GsubLigFwd
 import RbModel.Lemmas.GsubLigFlags
+import RbModel.Lemmas.GsubLigMixed
 
 namespace RbModel.Buf
 
@@ -977,5 +978,44 @@ example : exLigFlag.lookupMask &&& (U32MAX - Flag.DEFINED) = exLigFlag.lookupMas
 example : NonIncr (exLigFlag.buf.info.take exLigFlag.buf.len) := nonIncr_of_pairwise _ (by decide)
 example : (applyLookupFwd exLigFont 0 exLigLookup3 8 2 ((exLigFlag.buf.info.take 2).map toG) 0).map
     (fun g => (g.gid, g.cluster, featBits g.mask)) = [(21, 0, 8)] := by decide
+
+/-- **C06, lookups mixing ligature subtables with one-for-one simple subtables (partial: multiple-substitution subtables are not
+    in the mix).**  The model's `Lookup` and the specification's `firstSubtable` allow subtables of different kinds in one
+    lookup (OpenType itself does not: a lookup has one type).  For a lookup whose subtables are single substitutions
+    (formats 1 / 2), alternate substitutions or ligature substitutions in any order, the first subtable that applies at a
+    glyph decides, exactly as in the OpenType model; hypotheses: the union of Part 3's (`c.random = false`, 32-bit lookup
+    mask, `AltSetsShort`) and `C06_ligature_subst_refines_spec`'s.  Missing: multiple substitution in the mix — the string
+    then grows and shrinks within one pass, and the length budget `max_len` has to be analysed over every prefix of the scan
+    (Part 4 bounds it by the final length, which is no longer an upper bound of the intermediate lengths). -/
+theorem C06_ligature_mixed_partial (l : Lookup) (hall : l.subtables.all Subtable.isInPlaceOrLig = true)
+    (hshort : LigsShort l.subtables) (halt : AltSetsShort l.subtables) (hp : NoSkipFlags l.props)
+    (c : Ctx) (fuel : Nat) (hrnd : c.random = false) (hlm : c.lookupMask < 2 ^ 32)
+    (hps : c.perSyllable = false) (hlv : c.buf.level ≠ 2)
+    (hfl : c.buf.flags &&& Gen.Buf.produceUnsafeToConcat = 0)
+    (hsu : c.buf.successful = true) (hlen : c.buf.len ≤ c.buf.info.length) (hout : c.buf.out.length = c.buf.info.length)
+    (hbud : c.buf.len ≤ c.buf.maxLen)
+    (hplain : ∀ x ∈ c.buf.info.take c.buf.len, Plain x ∧ x.gid < 65536)
+    (hfeat : ∀ x ∈ c.buf.info.take c.buf.len, FeatMask x)
+    (hmono : NonDecr (c.buf.info.take c.buf.len) ∨ NonIncr (c.buf.info.take c.buf.len)) :
+    ∃ c', applyString c l fuel = .ok c' ∧ c'.buf.successful = true ∧ c'.buf.len ≤ c'.buf.info.length ∧
+      (c'.buf.info.take c'.buf.len).map toG
+        = applyLookupFwd c.font c.buf.level l c.lookupMask fuel ((c.buf.info.take c.buf.len).map toG) 0 := by
+  rw [toG_eq_projG]
+  exact applyString_sim l (inPlaceOrLig_not_reverse l hall) hp C06_gen_buffer_variants.2 c
+    (mixed_subSim C06_gen_buffer_variants.2 C06_gen_extend_start_guard l hall hshort halt hp c.lookupMask c.buf.level hlv hlm)
+    fuel hrnd hps hlv hfl hsu hlen hout hbud hplain hfeat hmono
+
+/-! non-vacuity: ligature "1 2" → 21 first, then single substitution 1 → 11, 3 → 13, then alternate 2 → 30 (feature value 1) -/
+def exMixLigLookup : Lookup :=
+  { props := 0, subtables := [.ligature [1] [[([2], 21)]], .single1 [1, 3] 10, .alternate [2] [[30, 31]]] }
+def exMixLigCtx : Ctx :=
+  { font := exLigFont, lookupMask := 8,
+    buf := { info := [⟨1,8,0,0,0⟩, ⟨2,8,1,0,0⟩, ⟨1,8,2,0,0⟩, ⟨3,8,3,0,0⟩, ⟨2,8,4,0,0⟩], out := List.replicate 5 {}, len := 5 } }
+example : exMixLigLookup.subtables.all Subtable.isInPlaceOrLig = true := by decide
+example : (match applyString exMixLigCtx exMixLigLookup 5 with
+    | .ok c' => (c'.buf.info.take c'.buf.len).map (fun x => (x.gid, x.cluster)) == [(21, 0), (11, 2), (13, 3), (30, 4)]
+    | .error _ => false) = true := by decide
+example : (applyLookupFwd exLigFont 0 exMixLigLookup 8 5 ((exMixLigCtx.buf.info.take 5).map toG) 0).map (fun g => (g.gid, g.cluster))
+    = [(21, 0), (11, 2), (13, 3), (30, 4)] := by decide
 
 end RbModel.Gsub
